@@ -63,6 +63,7 @@ type appCase struct {
 	PauseMs       int  `json:"source_silent_ms,omitempty"`
 	EmptyRun      int  `json:"empty_reads_in_a_row,omitempty"`
 	EmptyRunAt    int  `json:"empty_run_at_offset,omitempty"`
+	EndsWithError bool `json:"ends_with_a_read_error,omitempty"`
 	// the source falls silent for SilenceMs after this many chunks have been written
 	SilenceAfterChunks int `json:"silence_after_chunks,omitempty"`
 	SilenceMs          int `json:"silence_ms,omitempty"`
@@ -603,6 +604,39 @@ func appInputX(r *ref.SplitMix64, i int) (in []byte, frames []byte, known bool) 
 		}
 		return s.Bytes(), frames, true
 	}
+	if i%23 == 5 || i%23 == 20 {
+		// frames with next to nothing between them: a lone line feed, a carriage return,
+		// a NUL, a space, a '$', 0xff, two to four such bytes - at the very start, between
+		// frames, after a line of text, at the end
+		tiny := [][]byte{{'\n'}, {'\r'}, {'\r', '\n'}, {0}, {' '}, {'$'}, {0xff}, {'\n', '\n'}, {0, 0, 0}, {'\n', '\r', '\n', '\n'}}
+		pick := func() []byte {
+			if r.Chance(1, 4) {
+				return gen.NoD3(r.Bytes(r.Range(1, 4)))
+			}
+			return tiny[r.Intn(len(tiny))]
+		}
+		if r.Chance(1, 2) {
+			in = append(in, pick()...)
+		}
+		for j := r.Range(2, 9); j > 0; j-- {
+			f := gen.RandFrame(r).Bytes
+			if r.Chance(1, 3) {
+				t := 1005 + r.Intn(2)
+				f = ref.Frame(ref.EncodeBase(gen.RandBase(r, t), t))
+			}
+			in = append(in, f...)
+			frames = append(frames, f...)
+			switch r.Intn(4) {
+			case 0:
+			case 1:
+				in = append(in, "$GPGSV,3,1,11,03,03,111,00,04,15,270,00*74\r\n"...)
+				in = append(in, pick()...)
+			default:
+				in = append(in, pick()...)
+			}
+		}
+		return in, frames, true
+	}
 	if i%23 == 17 {
 		// things that are not frames although their last three bytes are the CRC of the
 		// rest (a reserved bit set or a zero length field in the leader), among frames;
@@ -842,6 +876,17 @@ func monC11(c *child.Ctx, replay json.RawMessage) {
 			k.Closer = i%3 == 1
 			if k.Closer {
 				c.Count("cases_with_a_closable_writer", 1)
+			}
+			if i%7 == 5 {
+				k.EndsWithError = true
+				c.Count("cases_ending_with_a_read_error", 1)
+			}
+			if i%5 == 3 {
+				// the source hands over its last block together with io.EOF (a decompressor,
+				// an HTTP body), in reads as large as the caller's buffer allows
+				k.EOFWithData, k.EndsWithError = true, false
+				k.Chunk = []int{0, 0, 4096, 300}[r.Intn(4)]
+				c.Count("cases_whose_last_block_comes_with_the_end_of_input", 1)
 			}
 			if i%6 == 2 && len(in) < 4000 {
 				// a configuration for a live feed: end of file is retried for a while, so the
@@ -1089,6 +1134,12 @@ func monC10(c *child.Ctx, replay json.RawMessage) {
 		if i%5 == 3 {
 			k.EmptyPermille = []int{30, 300}[r.Intn(2)]
 			c.Count("cases_with_empty_reads", 1)
+		}
+		if i%9 == 4 {
+			// the device is unplugged: the input ends with a hard read error; everything
+			// that was read before it is still filtered and written
+			k.EndsWithError, k.EOFWithData = true, false
+			c.Count("cases_ending_with_a_read_error", 1)
 		}
 		if i%10 == 8 && len(in) > 2 {
 			k.EmptyRun, k.EmptyRunAt = []int{99, 100, 101, 250, 1000}[r.Intn(5)], r.Range(0, len(in)-1)
